@@ -26,7 +26,7 @@ ASSUMPTIONS = [
     "RealizationFilter interface contract: returns some non-negative (R,) vector; FunctionEstimator other than the default not covered",
     "value clauses are required only where some realization with positive in-force weight succeeds (as in the quantifier)",
     "sqrt is an uninterpreted function with s >= 0 and s*s = x",
-    "bounded in shape only: R <= 3, J <= 2, K <= 1, batch <= 2",
+    "bounded in shape only: R <= 3 (4 in the thorough tier), J <= 2, K <= 1, batch <= 2 (3)",
 ]
 
 ME = "ropt.ensemble_evaluator._ensemble_evaluator"
